@@ -296,9 +296,12 @@ class World:
         Configuration.exclude = []
         Configuration.verbose = False
         Configuration.repository = None
-        Configuration.load(self.root)
+        # the root is given the way a user gives it: "." (the default of `codelimit scan`) and the absolute path alternate
+        self.nscan = getattr(self, "nscan", 0) + 1
+        arg = Path(".") if self.nscan % 2 else self.root
+        Configuration.load(arg)
         with contextlib.redirect_stdout(io.StringIO()):
-            scan_command(self.root)
+            scan_command(arg)
         self.outcome = "ok"
 
     def show(self, which):
